@@ -12,6 +12,7 @@ import (
 func vRunCase7(t *testing.T, c vCase) (msg string) {
 	switch c.Kind {
 	case "race":
+		sanityBefore := vSanity(t, "all") // facts already failing sequentially are some other property's business
 		g := vMulPt(big.NewInt(7), vG())
 		sharedEl := vElementOf(g, big.NewInt(3))
 		sharedSc := vScalarOf(t, big.NewInt(987654321))
@@ -168,7 +169,7 @@ func vRunCase7(t *testing.T, c vCase) (msg string) {
 				return e
 			}
 		}
-		if m := vSanity(t); m != "" {
+		if m := vSanity(t, "all"); m != "" && sanityBefore == "" {
 			return "after the concurrent phase: " + m
 		}
 	default:
